@@ -11,10 +11,10 @@ C_SRC = r'''
 struct l1s_state l1s;
 int main(void)
 {
-	unsigned i, n = sizeof(rn_table) / sizeof(rn_table[0]);
-	printf("%%u %%u\n", n, (unsigned) sizeof(rn_table[0]));
+	unsigned i, n = sizeof(%s) / sizeof(%s[0]);
+	printf("%%u %%u\n", n, (unsigned) sizeof(%s[0]));
 	for (i = 0; i < n; i++)
-		printf("%%u\n", (unsigned) rn_table[i]);
+		printf("%%u\n", (unsigned) %s[i]);
 	printf("%%u\n", (unsigned) (sizeof(l1s.dedicated.h1.ma) / sizeof(l1s.dedicated.h1.ma[0])));
 	return 0;
 }
@@ -29,12 +29,37 @@ def c_flags():
     return cmd
 
 
+def names(run):
+    """what the translation unit of rfch.c defines, found in the PREPROCESSED text (so a definition moved into a header, or
+    renamed, is found where the compiler finds it): the RNTABLE copy = the array initialised with 114 integer constants
+    (under the name rn_table, or the only such array), and whether the static helpers the harness can call directly exist"""
+    if getattr(run, "hop_names", None):
+        return run.hop_names
+    rfch = os.path.join(vf.REPO, "src/target/firmware/layer1/rfch.c")
+    rc, txt = vf.sh(["gcc", "-E", "-P"] + c_flags() + [rfch])
+    if rc != 0:
+        raise vf.HarnessError("rfch.c does not preprocess: %s" % txt[-1500:])
+    import re
+    tables = []
+    for m in re.finditer(r"\b([A-Za-z_]\w*)\s*\[[^\]]*\]\s*=\s*\{([^{}]*)\}", txt):
+        items = [x for x in m.group(2).replace("\n", " ").split(",") if x.strip()]
+        if len(items) == 114 and all(re.fullmatch(r"\s*(0[xX][0-9a-fA-F]+|\d+)[uUlL]*\s*", x) for x in items):
+            tables.append(m.group(1))
+    table = "rn_table" if "rn_table" in tables else (tables[0] if len(set(tables)) == 1 else None)
+    if table is None:
+        raise vf.HarnessError("the RNTABLE copy of rfch.c (an array of 114 integer constants) was not found in its translation unit: %r" % tables)
+    defined = lambda f: re.search(r"\b%s\s*\([^;{}]*\)\s*\{" % f, txt) is not None
+    run.hop_names = {"table": table, "seq_gen": defined("rfch_hop_seq_gen"), "pnm": defined("pow_nbin_mask")}
+    return run.hop_names
+
+
 def generate(run):
     rfch = os.path.join(vf.REPO, "src/target/firmware/layer1/rfch.c")
     src = os.path.join(run.scratch, "gen_hopping.c")
     exe = os.path.join(run.scratch, "gen_hopping")
+    tname = names(run)["table"]
     with open(src, "w") as f:
-        f.write(C_SRC % rfch)
+        f.write(C_SRC % (rfch, tname, tname, tname, tname))
     vf.cc([src], exe, flags=c_flags())
     rc, out = vf.sh([exe], check=True)
     nums = out.split()
